@@ -222,3 +222,253 @@ Proof.
   rewrite (nth_map_in (fun p => dot (trend_row N (fst p) (snd p)) coef) _ _ 0 (0, 0)) by exact Hi.
   reflexivity.
 Qed.
+
+(** ** the monomial order *)
+Close Scope Q_scope.
+Open Scope nat_scope.
+
+Lemma insert_by_perm {A} (k : A -> nat) x l : Permutation (insert_by k x l) (x :: l).
+Proof.
+  induction l as [|y t IH]; cbn [insert_by]; [reflexivity|].
+  destruct (k x <=? k y); [reflexivity|].
+  rewrite IH. apply perm_swap.
+Qed.
+
+Lemma stable_sort_perm {A} (k : A -> nat) l : Permutation (stable_sort k l) l.
+Proof.
+  induction l as [|x t IH]; cbn [stable_sort]; [reflexivity|].
+  rewrite insert_by_perm. apply perm_skip, IH.
+Qed.
+
+Definition key_le {A} (k : A -> nat) (x y : A) : Prop := k x <= k y.
+
+Lemma insert_by_sorted {A} (k : A -> nat) x l :
+  StronglySorted (key_le k) l -> StronglySorted (key_le k) (insert_by k x l).
+Proof.
+  induction l as [|y t IH]; intros H; cbn [insert_by].
+  - constructor; constructor.
+  - apply StronglySorted_inv in H as [Ht Hy].
+    destruct (k x <=? k y) eqn:E.
+    + apply Nat.leb_le in E. constructor; [constructor; assumption|].
+      constructor; [exact E|]. eapply Forall_impl; [|exact Hy]. unfold key_le. intros; lia.
+    + apply Nat.leb_gt in E. constructor; [apply IH; exact Ht|].
+      eapply Permutation_Forall; [symmetry; apply insert_by_perm|].
+      constructor; [unfold key_le; lia|exact Hy].
+Qed.
+
+Lemma stable_sort_sorted {A} (k : A -> nat) l : StronglySorted (key_le k) (stable_sort k l).
+Proof.
+  induction l as [|x t IH]; cbn [stable_sort]; [constructor|]. apply insert_by_sorted, IH.
+Qed.
+
+(** stability: elements with equal keys keep their relative order *)
+Lemma insert_by_filter {A} (k : A -> nat) d x l :
+  filter (fun y => k y =? d) (insert_by k x l) =
+  if k x =? d then x :: filter (fun y => k y =? d) l else filter (fun y => k y =? d) l.
+Proof.
+  induction l as [|y t IH]; cbn [insert_by filter].
+  - reflexivity.
+  - destruct (k x <=? k y) eqn:E; cbn [filter].
+    + reflexivity.
+    + apply Nat.leb_gt in E. rewrite IH.
+      destruct (k x =? d) eqn:Ex; [|reflexivity].
+      apply Nat.eqb_eq in Ex.
+      assert (Ey: (k y =? d) = false) by (apply Nat.eqb_neq; lia).
+      rewrite Ey. reflexivity.
+Qed.
+
+Lemma stable_sort_stable {A} (k : A -> nat) d l :
+  filter (fun y => k y =? d) (stable_sort k l) = filter (fun y => k y =? d) l.
+Proof.
+  induction l as [|x t IH]; cbn [stable_sort]; [reflexivity|].
+  rewrite insert_by_filter, IH. cbn [filter]. reflexivity.
+Qed.
+
+(** *** the generator *)
+Lemma in_gen_combos N i j : In (i, j) (gen_combos N) <-> i + j <= N.
+Proof.
+  unfold gen_combos. rewrite in_flat_map. split.
+  - intros (j' & Hj & Hi). apply in_seq in Hj. apply in_map_iff in Hi as (i' & E & Hi).
+    apply in_seq in Hi. injection E as -> ->. lia.
+  - intros H. exists j. split; [apply in_seq; lia|].
+    apply in_map_iff. exists i. split; [reflexivity|apply in_seq; lia].
+Qed.
+
+Lemma NoDup_app_intro {A} (l1 l2 : list A) :
+  NoDup l1 -> NoDup l2 -> (forall x, In x l1 -> ~ In x l2) -> NoDup (l1 ++ l2).
+Proof.
+  induction l1 as [|x t IH]; intros H1 H2 D; cbn [app]; [exact H2|].
+  inversion H1 as [|? ? Hx Ht]; subst. constructor.
+  - rewrite in_app_iff. intros [I|I]; [exact (Hx I)|]. exact (D x (or_introl eq_refl) I).
+  - apply IH; try assumption. intros y Hy. apply D. right. exact Hy.
+Qed.
+
+Lemma NoDup_pairs (f : nat -> nat) js :
+  NoDup js -> NoDup (flat_map (fun j => map (fun i => (i, j)) (seq 0 (f j))) js).
+Proof.
+  induction js as [|j t IH]; intros H; cbn [flat_map]; [constructor|].
+  inversion H as [|? ? Hj Ht]; subst. apply NoDup_app_intro.
+  - apply FinFun.Injective_map_NoDup; [|apply seq_NoDup]. intros a b E. injection E as ->. reflexivity.
+  - apply IH, Ht.
+  - intros [a b] Ha Hb. apply in_map_iff in Ha as (i & E & _). injection E as -> ->.
+    apply in_flat_map in Hb as (j' & Hj' & Hb). apply in_map_iff in Hb as (i' & E & _).
+    injection E as -> ->. exact (Hj Hj').
+Qed.
+
+Lemma gen_combos_NoDup N : NoDup (gen_combos N).
+Proof. unfold gen_combos. apply (NoDup_pairs (fun j => N + 1 - j)), seq_NoDup. Qed.
+
+Lemma gen_combos_length_aux N a k : a + k = N + 1 ->
+  2 * length (flat_map (fun j => map (fun i => (i, j)) (seq 0 (N + 1 - j))) (seq a k)) = k * (k + 1).
+Proof.
+  revert a. induction k as [|k IH]; intros a H; [reflexivity|].
+  cbn [seq flat_map]. rewrite app_length, map_length, seq_length.
+  specialize (IH (S a) ltac:(lia)). nia.
+Qed.
+
+(** *** polynomial_power_combinations *)
+
+(** (N+1)(N+2)/2 coefficients, for every degree *)
+Theorem combos_length N : 2 * length (power_combinations N) = (N + 1) * (N + 2).
+Proof.
+  unfold power_combinations. rewrite (Permutation_length (stable_sort_perm deg (gen_combos N))).
+  unfold gen_combos. rewrite (gen_combos_length_aux N 0 (N + 1)) by lia. lia.
+Qed.
+
+(** (i, j) occurs iff i + j <= N, and exactly once *)
+Theorem combos_complete N :
+  NoDup (power_combinations N) /\ forall i j, In (i, j) (power_combinations N) <-> i + j <= N.
+Proof.
+  split.
+  - eapply Permutation_NoDup; [symmetry; apply stable_sort_perm|apply gen_combos_NoDup].
+  - intros i j. rewrite <- in_gen_combos. split; apply Permutation_in;
+      [apply stable_sort_perm|symmetry; apply stable_sort_perm].
+Qed.
+
+(** total degree non-decreasing along the list *)
+Theorem combos_sorted N : StronglySorted (fun a b => deg a <= deg b) (power_combinations N).
+Proof. apply (stable_sort_sorted deg). Qed.
+
+(** *** order within a degree: (d, 0), (d-1, 1), ..., (0, d) *)
+Lemma filter_eq_seq c a n : filter (fun i => i =? c) (seq a n) = if (a <=? c) && (c <? a + n) then [c] else [].
+Proof.
+  revert a. induction n as [|n IH]; intros a; cbn [seq filter].
+  - destruct ((a <=? c) && (c <? a + 0)) eqn:E; [|reflexivity].
+    apply andb_true_iff in E as [E1 E2]. apply Nat.leb_le in E1. apply Nat.ltb_lt in E2. lia.
+  - rewrite IH. destruct (a =? c) eqn:E.
+    + apply Nat.eqb_eq in E. subst a.
+      replace ((S c <=? c) && (c <? S c + n)) with false
+        by (symmetry; apply andb_false_iff; left; apply Nat.leb_gt; lia).
+      replace ((c <=? c) && (c <? c + S n)) with true
+        by (symmetry; apply andb_true_iff; split; [apply Nat.leb_le|apply Nat.ltb_lt]; lia).
+      reflexivity.
+    + apply Nat.eqb_neq in E.
+      assert (X: (S a <=? c) && (c <? S a + n) = (a <=? c) && (c <? a + S n)).
+      { apply eq_true_iff_eq. rewrite !andb_true_iff, !Nat.leb_le, !Nat.ltb_lt. lia. }
+      rewrite X. reflexivity.
+Qed.
+
+Lemma filter_flat_map {A B} (p : B -> bool) (f : A -> list B) l :
+  filter p (flat_map f l) = flat_map (fun x => filter p (f x)) l.
+Proof.
+  induction l as [|x t IH]; cbn [flat_map]; [reflexivity|]. rewrite filter_app, IH. reflexivity.
+Qed.
+
+Lemma filter_map_comm {A B} (p : B -> bool) (f : A -> B) l : filter p (map f l) = map f (filter (fun x => p (f x)) l).
+Proof.
+  induction l as [|x t IH]; cbn [map filter]; [reflexivity|]. rewrite IH. destruct (p (f x)); reflexivity.
+Qed.
+
+Lemma flat_map_singletons {A} (g : nat -> A) (p : nat -> bool) a n d :
+  (forall j, a <= j < a + n -> p j = (j <=? d)) ->
+  flat_map (fun j => if p j then [g j] else []) (seq a n) = map g (seq a (Nat.min n (d + 1 - a))).
+Proof.
+  revert a. induction n as [|n IH]; intros a Hp; [reflexivity|].
+  cbn [seq flat_map]. rewrite (Hp a) by lia.
+  destruct (a <=? d) eqn:E.
+  - apply Nat.leb_le in E. rewrite IH by (intros; apply Hp; lia).
+    replace (Nat.min (S n) (d + 1 - a)) with (S (Nat.min n (d + 1 - S a))) by lia. reflexivity.
+  - apply Nat.leb_gt in E. replace (d + 1 - a) with 0 by lia. rewrite Nat.min_0_r. cbn [seq map app].
+    rewrite IH by (intros; apply Hp; lia). replace (d + 1 - S a) with 0 by lia. rewrite Nat.min_0_r. reflexivity.
+Qed.
+
+Lemma filter_none {A} (l : list A) : filter (fun _ => false) l = [].
+Proof. induction l; [reflexivity|exact IHl]. Qed.
+
+Lemma gen_combos_degree N d : d <= N ->
+  filter (fun c => deg c =? d) (gen_combos N) = map (fun j => (d - j, j)) (seq 0 (d + 1)).
+Proof.
+  intros H. unfold gen_combos. rewrite filter_flat_map.
+  rewrite (flat_map_ext _ (fun j => if j <=? d then [(d - j, j)] else [])).
+  - rewrite (flat_map_singletons (fun j => (d - j, j)) (fun j => j <=? d) 0 (N + 1) d) by (intros; reflexivity).
+    replace (Nat.min (N + 1) (d + 1 - 0)) with (d + 1) by lia. reflexivity.
+  - intros j. rewrite filter_map_comm. unfold deg; cbn [fst snd].
+    destruct (j <=? d) eqn:E.
+    + apply Nat.leb_le in E.
+      rewrite (filter_ext _ (fun i => i =? d - j)).
+      * rewrite filter_eq_seq.
+        assert (E1: (0 <=? d - j) = true) by (apply Nat.leb_le; lia).
+        assert (E2: (d - j <? 0 + (N + 1 - j)) = true) by (apply Nat.ltb_lt; lia).
+        rewrite E1, E2. reflexivity.
+      * intros i. destruct (i + j =? d) eqn:X; destruct (i =? d - j) eqn:Y; try reflexivity;
+          try apply Nat.eqb_eq in X; try apply Nat.eqb_neq in X; try apply Nat.eqb_eq in Y; try apply Nat.eqb_neq in Y; lia.
+    + apply Nat.leb_gt in E.
+      rewrite (filter_ext _ (fun _ => false)).
+      * rewrite filter_none. reflexivity.
+      * intros i. apply Nat.eqb_neq. lia.
+Qed.
+
+(** order within a degree, as Python's stable sort leaves the generator's order *)
+Theorem combos_within_degree N d : d <= N ->
+  filter (fun c => deg c =? d) (power_combinations N) = map (fun j => (d - j, j)) (seq 0 (d + 1)).
+Proof.
+  intros H. unfold power_combinations. rewrite stable_sort_stable. apply gen_combos_degree. exact H.
+Qed.
+
+(** *** closed form: a list sorted by key is the concatenation of its key classes *)
+Lemma filter_key_none {A} (k : A -> nat) d l :
+  Forall (fun y => d < k y) l -> filter (fun y => k y =? d) l = [].
+Proof.
+  induction 1 as [|x t Hx Ht IH]; cbn [filter]; [reflexivity|].
+  replace (k x =? d) with false by (symmetry; apply Nat.eqb_neq; lia). exact IH.
+Qed.
+
+Lemma flat_filter_cons {A} (k : A -> nat) x t cnt : forall lo,
+  lo <= k x < lo + cnt -> Forall (fun y => k x <= k y) t ->
+  flat_map (fun d => filter (fun y => k y =? d) (x :: t)) (seq lo cnt) =
+  x :: flat_map (fun d => filter (fun y => k y =? d) t) (seq lo cnt).
+Proof.
+  induction cnt as [|c IH]; intros lo H F; [lia|].
+  cbn [seq flat_map filter]. destruct (k x =? lo) eqn:E.
+  - apply Nat.eqb_eq in E. cbn [app]. f_equal. f_equal.
+    rewrite !flat_map_concat_map. f_equal. apply map_ext_in. intros d Hd. apply in_seq in Hd.
+    cbn [filter]. replace (k x =? d) with false by (symmetry; apply Nat.eqb_neq; lia). reflexivity.
+  - apply Nat.eqb_neq in E.
+    rewrite (filter_key_none k lo t) by (eapply Forall_impl; [|exact F]; cbn; intros; lia).
+    cbn [app]. apply IH; [lia|exact F].
+Qed.
+
+Lemma sorted_partition {A} (k : A -> nat) l lo cnt :
+  StronglySorted (key_le k) l -> Forall (fun x => lo <= k x < lo + cnt) l ->
+  flat_map (fun d => filter (fun y => k y =? d) l) (seq lo cnt) = l.
+Proof.
+  induction l as [|x t IH]; intros S F.
+  - induction (seq lo cnt) as [|d ds IHd]; [reflexivity|exact IHd].
+  - apply StronglySorted_inv in S as [St Hx]. inversion F as [|? ? Fx Ft]; subst.
+    rewrite flat_filter_cons by assumption. f_equal. apply IH; assumption.
+Qed.
+
+(** polynomial_power_combinations(N) is exactly the documented list, for every degree N *)
+Theorem combos_closed_form N : power_combinations N = by_degree N.
+Proof.
+  rewrite <- (sorted_partition deg (power_combinations N) 0 (N + 1)).
+  - unfold by_degree. rewrite !flat_map_concat_map. f_equal. apply map_ext_in. intros d Hd.
+    apply in_seq in Hd. apply combos_within_degree. lia.
+  - apply (stable_sort_sorted deg).
+  - apply Forall_forall. intros [i j] Hin. apply (proj2 (combos_complete N)) in Hin.
+    unfold deg; cbn [fst snd]. lia.
+Qed.
+
+Example combos_doc_example :
+  power_combinations 3 = [(0, 0); (1, 0); (0, 1); (2, 0); (1, 1); (0, 2); (3, 0); (2, 1); (1, 2); (0, 3)].
+Proof. reflexivity. Qed.
